@@ -1451,3 +1451,79 @@ M("c10_try_with_down_arm_rounds_up", ["C10", "C01", "C02"], ["C10.R1d", "C01.R12
                             down_align_usize(pos, S::MIN_ALIGN)""", """                            let pos = value.addr().get();
                             up_align_usize_unchecked(pos, S::MIN_ALIGN)""")])
 
+# ---------------------------------------------------------------- rules added after the third seeding round
+M("c06_splice_fill_counts_after_loop", ["C06"], ["C06.R6"], [
+    ("src/bump_vec/splice.rs", """                        ptr::write(place, new_item);
+                        vec.inc_len(1);
+                    }
+                    _ => {
+                        return false;
+                    }
+                }
+            }
+            true""", """                        ptr::write(place, new_item);
+                        n += 1;
+                    }
+                    _ => {
+                        vec.inc_len(n);
+                        return false;
+                    }
+                }
+            }
+            vec.inc_len(n);
+            true"""),
+    ("src/bump_vec/splice.rs", """            for place in range_slice {
+                match replace_with.next() {""", """            let mut n = 0;
+            for place in range_slice {
+                match replace_with.next() {""")])
+M("c06_new_ranged_zst_counts_from_zero", ["C06"], ["C06.R10"], [
+    ("src/owned_slice/into_iter.rs", """                Self::new_zst(range.end - range.start)""", """                Self::new_zst(range.len() + range.start)""")])
+M("c06_retain_guard_starts_at_dropped_element", ["C06"], ["C06.R10", "C06.R2"], [
+    ("src/bump_box.rs", """            read: read + 1,
+            write: read,
+            original_len,
+        };""", """            read,
+            write: read,
+            original_len,
+        };
+        g.read += 1;""")])
+M("c09_str_retain_cursor_moves_before_predicate", ["C09"], ["C09.R3"], [
+    ("src/bump_box.rs", """            // Point idx to the next char
+            guard.idx += ch_len;
+        }""", """        }"""),
+    ("src/bump_box.rs", """            let ch_len = ch.len_utf8();
+""", """            let ch_len = ch.len_utf8();
+            let at = guard.idx;
+            guard.idx += ch_len;
+""")])
+M("c08_shrink_to_fit_ignores_returned_pointer", ["C08", "C01"], ["C08.R9", "C01.R14"], [
+    ("src/bump_vec.rs", """            if let Some(new_ptr) = allocator.shrink_slice(ptr, cap, len) {
+                fixed.set_ptr(new_ptr);""", """            if let Some(_new_ptr) = allocator.shrink_slice(ptr, cap, len) {""")])
+M("c08_map_in_place_gate_drops_align_test", ["C08", "C01"], ["C08.R10", "C01.R15"], [
+    ("src/bump_vec.rs", """        if !T::IS_ZST && !U::IS_ZST && T::ALIGN >= U::ALIGN && T::SIZE >= U::SIZE {""", """        if !T::IS_ZST && !U::IS_ZST && T::SIZE >= U::SIZE {""")])
+M("c16_vec_split_off_rotates_after_set_len", ["C16"], ["C16.R4", "C16.R1"], [
+    ("src/fixed_bump_vec.rs", """                self.as_mut_slice().get_unchecked_mut(start..).rotate_left(range_len);
+""", """"""),
+    ("src/fixed_bump_vec.rs", """                self.set_ptr(lhs);
+                self.set_len(lhs_len);
+                self.set_cap(lhs_cap);
+
+                FixedBumpVec {""", """                self.set_ptr(lhs);
+                self.set_len(lhs_len);
+                self.set_cap(lhs_cap);
+                self.as_mut_slice().get_unchecked_mut(start..).rotate_left(range_len);
+
+                FixedBumpVec {""")])
+M("c19_guard_drop_only_when_lock_clean", ["C19", "C05"], ["C19.R2", "C05.R9"], [
+    ("src/bump_pool.rs", """        let bump = unsafe { ManuallyDrop::take(&mut self.bump) };
+        self.pool.lock().push(bump);""", """        if !self.pool.bumps.is_poisoned() {
+            let bump = unsafe { ManuallyDrop::take(&mut self.bump) };
+            self.pool.lock().push(bump);
+        }""")])
+M("c09_mut_string_insert_gate_differs_from_twin", ["C09"], ["C09.R9"], [
+    ("src/mut_bump_string.rs", """        if range_len != given_len {
+            unsafe {
+                let src = self.as_ptr().add(end);""", """        if range_len > given_len || range_len < given_len && end < self.len() {
+            unsafe {
+                let src = self.as_ptr().add(end);""")])
+
